@@ -131,8 +131,8 @@ func (c *ProgCircuit) run(api frontend.API) ([]frontend.Variable, error) {
 			temps = append(temps, api.Inverse(a[0]))
 		case "ToBinary":
 			n := ins.N
-			if n >= 6 { // the spec's FieldBits for P = 47; scale to the field in use
-				n = c.FieldBits
+			if n >= 6 { // 6 / 7 are the spec's FieldBits / FieldBits+1 for P = 47; scale to the field in use
+				n = c.FieldBits + (n - 6)
 			}
 			temps = append(temps, api.ToBinary(a[0], n)...)
 		case "FromBinary":
@@ -226,7 +226,7 @@ func EvalProg(prog []Instr, asg []*big.Int, mod *big.Int) OracleResult {
 		if ins.Op == "ToBinary" {
 			nout = ins.N
 			if nout >= 6 {
-				nout = bitLen(mod)
+				nout = bitLen(mod) + (nout - 6)
 			}
 		} else if isAssert(ins.Op) {
 			nout = 0
